@@ -1060,3 +1060,102 @@ LEVEL_NOTE = "Partial claim (entry-level kernels, link recording, two one-step a
 # ---- extended claim (session 4)
 LEVEL_TEXT = LEVEL_TEXT + " m13: the link map's descendant closure equals reachability over recorded links for every graph over symbolic ids (<= 3 transactions, <= 3 links, cycles included)."
 LEVEL_NOTE = LEVEL_NOTE + ' Link closure: bounded number of links, containers modelled as association lists with symbolic keys.'
+
+
+def m14_resolve_conflict(S):
+    """`PoolMap::resolve_conflict(committed tx)` with the real `Edges` (input index: out-point -> spender, dep index: out-point -> readers) as containers with SYMBOLIC out-points:
+    pooled A spends oA, pooled B and C read oD as a cell dep; a committed transaction with two inputs i0, i1.  Decided for every coincidence of the out-points: A is removed (with
+    its descendants) iff oA is one of the committed inputs, B and C iff oD is; each removed entry is reported `Dead(i)` for the committed input i that equals the index key; the index
+    rows of the consumed out-points are gone afterwards and no other row is touched -- so no pooled transaction keeps spending or reading a cell the new chain consumed"""
+    from mir2smt import symmap as SM
+    from mir2smt.exec import ListV
+    from mir2smt.srcinfo import field_index
+    ob = "C11.m14"
+    f = [x for x in S.prog.funcs if x.kind == "fn" and x.short == "resolve_conflict" and "component/pool_map.rs" in x.name and "{closure" not in x.name and len(x.params) == 2]
+    if len(f) != 1:
+        raise Inconclusive(f"PoolMap::resolve_conflict: {len(f)} candidates")
+    PM = field_index("tx-pool/src/component/pool_map.rs", "PoolMap")
+    ED = field_index("tx-pool/src/component/edges.rs", "Edges")
+    ctx = S.ctx(unwind=14)
+    ctx.uninterpreted_unknown_calls = True
+    ctx.prune_with_solver = True
+    ctx.max_paths = 8000
+    idt = lambda n_: ctx.int("id!" + n_, "u64").t
+    ctx.add_side(T.ne(idt("oA"), idt("oD")))          # keys of one map are different out-points; a cell can be spent by A and read by B/C at once only under different keys
+    for x_, y_ in (("A", "B"), ("A", "C"), ("B", "C")):
+        ctx.add_side(T.ne(idt(x_), idt(y_)))
+    op = lambda n_: OpaqueV(n_, "OutPoint")
+    pid = lambda n_: OpaqueV(n_, "ProposalShortId")
+    inputs = SM.MapV(((idt("oA"), ctx.ref_to(pid("A")), op("oA")),), "HashMap<OutPoint, ProposalShortId>")
+    readers = SM.MapV(((idt("B"), None, pid("B")), (idt("C"), None, pid("C"))), "HashSet<ProposalShortId>", True)
+    deps = SM.MapV(((idt("oD"), ctx.ref_to(readers), op("oD")),), "HashMap<OutPoint, HashSet<ProposalShortId>>")
+    edges = AggV(tuple({"inputs": inputs, "deps": deps}.get(k, OpaqueV("edges." + k, "?")) for k, _ in sorted(ED.items(), key=lambda kv: kv[1])), "Edges")
+    pm = ctx.ref_to(AggV(tuple((edges if k == "edges" else OpaqueV("pm." + k, "?")) for k, _ in sorted(PM.items(), key=lambda kv: kv[1])), "PoolMap"))
+
+    def nm(ex, v):
+        v = deref(ex, v) if ex is not None else v
+        return getattr(v, "name", None) or type(v).__name__
+
+    def remove(ex, c, a, d):
+        t = nm(ex, a[1])
+        ex.log.append(("removed", c, [t], list(ex.pc)))
+        return ListV((OpaqueV("entry_" + t, "TxEntry"), OpaqueV("child_of_" + t, "TxEntry")), "Vec<TxEntry>")
+    ctx.env = list(E.LOGGING_OFF) + [
+        (E.rx(r"TransactionView::input_pts_iter$"), E.list_source([op("i0"), op("i1")])),
+        (E.rx(r"PoolMap::remove_entry_and_descendants$"), remove),
+        (E.rx(r"<(ckb_types::packed::)?(OutPoint|ProposalShortId) as Clone>::clone$"), lambda ex, c, a, d: deref(ex, a[0])),
+        (E.rx(r"repeat_n::<"), lambda ex, c, a, d: E._owned([a[0]] * deref(ex, a[1]).t)),
+    ] + SM.handlers(r"(ckb_types::packed::)?(OutPoint|ProposalShortId)") + SM.EXTRAS + list(E.LIST_ADAPTORS)
+    ps = S.run(ctx, f[0], [pm, ctx.ref_to(OpaqueV("committed_tx", "TransactionView"))])
+    S.prove(ctx, ob, "no_panic", [], T.not_(cond_of(panics(ps))))
+    spent = lambda o_: T.or_(T.eq(idt(o_), idt("i0")), T.eq(idt(o_), idt("i1")))
+    rs = returns(ps)
+    for who, key in (("A", "oA"), ("B", "oD"), ("C", "oD")):
+        when = T.or_(*[p.cond() for p in rs if who in [e[2][0] for e in p.log if e[0] == "removed"]])
+        S.prove(ctx, ob, f"{who}_is_removed_iff_the_committed_transaction_consumes_the_cell_it_{'spends' if who == 'A' else 'reads'}", [], T.iff(when, spent(key)))
+    goals = []
+    from mir2smt.exec import post_value
+    for p in rs:
+        rem = [e[2][0] for e in p.log if e[0] == "removed"]
+        v = p.value
+        ok = isinstance(v, ListV) and len(v.items) == 2 * len(rem) and len(set(rem)) == len(rem)
+        terms = []
+        if ok:
+            for k, t in enumerate(rem):
+                for j, whoe in enumerate((f"entry_{t}", f"child_of_{t}")):
+                    ent, rej = v.items[2 * k + j].fields
+                    ok = ok and getattr(ent, "name", None) == whoe
+                    leaf = _leaf_name11(rej)
+                    ok = ok and leaf in ("i0", "i1")
+                    if leaf in ("i0", "i1"):
+                        terms.append(T.eq(idt(leaf), idt("oA" if t == "A" else "oD")))
+        # index rows afterwards
+        post = post_value(ctx, p, pm)
+        e_ = post.fields[PM["edges"]]
+        ins, dps = e_.fields[ED["inputs"]], e_.fields[ED["deps"]]
+        terms.append(T.iff(bool(len(ins.items) == 1), T.not_(spent("oA"))))
+        terms.append(T.iff(bool(len(dps.items) == 1), T.not_(spent("oD"))))
+        ok = ok and len(ins.items) <= 1 and len(dps.items) <= 1
+        goals.append(T.implies(p.cond(), T.and_(bool(ok), *terms)))
+    S.prove(ctx, ob, "removed_entries_and_descendants_are_reported_dead_for_the_consumed_out_point_and_its_index_rows_are_gone", [], T.and_(*goals) if goals else False)
+    S.witness(ctx, ob, "reach_both_consumed_by_different_inputs", [], T.and_(T.eq(idt("oA"), idt("i0")), T.eq(idt("oD"), idt("i1"))))
+
+
+def _leaf_name11(v):
+    seen = []
+
+    def walk(x):
+        if isinstance(x, OpaqueV):
+            seen.append(x.name)
+        elif isinstance(x, EnumV):
+            for _, pl in x.payloads:
+                for y in pl:
+                    walk(y)
+        elif isinstance(x, AggV):
+            for y in x.fields:
+                walk(y)
+    walk(v)
+    return seen[0] if len(seen) == 1 else None
+
+
+OBLIGATIONS = OBLIGATIONS + [m14_resolve_conflict]
